@@ -32,4 +32,51 @@ SPECS = {
             {"name": "frobenius", "anchor": "impl ExtensibleField<3> for BaseElement", "mode": "formula", "lean": "ext3Frobenius", "key": "ext3_frobenius"},
         ],
     },
+    "f62": {
+        "file": F62, "out": "F62.lean", "namespace": "Wf.Gen.F62", "elem": "u64",
+        "consts": ["M", "R2", "R3", "U"],
+        "fns": [
+            {"name": "add", "anchor": "impl Deserializable for BaseElement", "mode": "kernel"},
+            {"name": "sub", "anchor": "impl Deserializable for BaseElement", "mode": "kernel"},
+            {"name": "mul", "anchor": "impl Deserializable for BaseElement", "mode": "kernel"},
+            {"name": "normalize", "anchor": "impl Deserializable for BaseElement", "mode": "kernel"},
+            {"name": "new", "anchor": "impl BaseElement", "mode": "kernel"},
+            {"name": "double", "anchor": "impl FieldElement for BaseElement", "mode": "kernel"},
+            {"name": "as_int", "anchor": "impl StarkField for BaseElement", "mode": "kernel"},
+            {"name": "mul", "anchor": "impl ExtensibleField<2> for BaseElement", "mode": "formula", "lean": "ext2Mul", "key": "ext2_mul"},
+            {"name": "mul_base", "anchor": "impl ExtensibleField<2> for BaseElement", "mode": "formula", "lean": "ext2MulBase", "key": "ext2_mul_base"},
+            {"name": "frobenius", "anchor": "impl ExtensibleField<2> for BaseElement", "mode": "formula", "lean": "ext2Frobenius", "key": "ext2_frobenius"},
+            {"name": "mul", "anchor": "impl ExtensibleField<3> for BaseElement", "mode": "formula", "lean": "ext3Mul", "key": "ext3_mul"},
+            {"name": "mul_base", "anchor": "impl ExtensibleField<3> for BaseElement", "mode": "formula", "lean": "ext3MulBase", "key": "ext3_mul_base"},
+            {"name": "frobenius", "anchor": "impl ExtensibleField<3> for BaseElement", "mode": "formula", "lean": "ext3Frobenius", "key": "ext3_frobenius"},
+        ],
+    },
+    "f128": {
+        "file": F128, "out": "F128.lean", "namespace": "Wf.Gen.F128", "elem": "u128",
+        "consts": ["M"],
+        "fns": [
+            {"name": "add64_with_carry", "mode": "kernel"},
+            {"name": "add_192x192", "mode": "kernel"},
+            {"name": "sub_192x192", "mode": "kernel"},
+            {"name": "sub_modulus", "mode": "kernel"},
+            {"name": "mul_by_modulus", "mode": "kernel"},
+            {"name": "mul_reduce", "mode": "kernel"},
+            {"name": "mul_128x64", "mode": "kernel"},
+            {"name": "add", "anchor": "impl Deserializable for BaseElement", "mode": "kernel"},
+            {"name": "sub", "anchor": "impl Deserializable for BaseElement", "mode": "kernel"},
+            {"name": "mul", "anchor": "impl Deserializable for BaseElement", "mode": "kernel"},
+            {"name": "new", "anchor": "impl BaseElement", "mode": "kernel"},
+            {"name": "mul", "anchor": "impl ExtensibleField<2> for BaseElement", "mode": "formula", "lean": "ext2Mul", "key": "ext2_mul"},
+            {"name": "mul_base", "anchor": "impl ExtensibleField<2> for BaseElement", "mode": "formula", "lean": "ext2MulBase", "key": "ext2_mul_base"},
+            {"name": "frobenius", "anchor": "impl ExtensibleField<2> for BaseElement", "mode": "formula", "lean": "ext2Frobenius", "key": "ext2_frobenius"},
+        ],
+    },
+    "fieldconsts": {
+        "kind": "natconsts", "out": "FieldConsts.lean", "namespace": "Wf.Gen.FieldConsts",
+        "groups": [
+            {"file": F64, "ns": "F64", "consts": ["M", "R2", "GENERATOR", "TWO_ADICITY", "TWO_ADIC_ROOT_OF_UNITY", "MODULUS_BITS"]},
+            {"file": F62, "ns": "F62", "consts": ["M", "R2", "R3", "U", "G", "GENERATOR", "TWO_ADICITY", "TWO_ADIC_ROOT_OF_UNITY", "MODULUS_BITS"]},
+            {"file": F128, "ns": "F128", "consts": ["M", "G", "GENERATOR", "TWO_ADICITY", "TWO_ADIC_ROOT_OF_UNITY", "MODULUS_BITS"]},
+        ],
+    },
 }
